@@ -50,6 +50,13 @@ QPositionsNeverReused ==
 (* C18 (abstract): a call changes only the addressed queue.                *)
 QFrame == \A q \in Queues : q # lastCall.q => qm[q] = prevQm[q]
 
+(* C18 across crashes: whatever an interrupted call may leave behind (AllowedAfterCrash, the C02  *)
+(* tolerance) differs from the state before the call only at the addressed queue.  Together with  *)
+(* Wal's invariants Refines (memory = abstract state at rest) and VerdictOk (every recovery is in  *)
+(* AllowedAfterCrash) this is the design-level argument for queue isolation.                       *)
+QCrashFrame ==
+  \A x \in AllowedAfterCrash(prevQm, lastCall) : \A q \in Queues : q # lastCall.q => x[q] = prevQm[q]
+
 (* C13 (abstract): rejected and no-op calls change nothing.                *)
 QNoTrace == IsRejectOrNoop(prevQm, lastCall) => qm = prevQm /\ assigned = prevAssigned
 
